@@ -673,6 +673,7 @@ async fn serve_once(sc: &SConf, evs: &[Ev], deadline: Duration) -> Attempt {
             // the listeners are bound before `execute` returns; a refusal before the first accepted connection is
             // retried for a while all the same (harness trouble if it stays), later it is an observation
             let mut stream = None;
+            let mut reset_at_connect = false;
             let t0 = Instant::now();
             let mut socket = Some(socket);
             loop {
@@ -695,6 +696,12 @@ async fn serve_once(sc: &SConf, evs: &[Ev], deadline: Duration) -> Attempt {
                         tokio::time::sleep(Duration::from_millis(10)).await;
                     }
                     Err(e) if e.kind() == std::io::ErrorKind::ConnectionRefused => break,
+                    // the handshake was completed by the kernel and the connection reset before this task looked at it: the
+                    // server closed it at once (dropped at accept), or closed the listener with the connection in its queue
+                    Err(e) if e.kind() == std::io::ErrorKind::ConnectionReset => {
+                        reset_at_connect = true;
+                        break;
+                    }
                     Err(_) => {
                         trouble = 3;
                         break 'evs;
@@ -722,6 +729,25 @@ async fn serve_once(sc: &SConf, evs: &[Ev], deadline: Duration) -> Attempt {
                 }
                 inject::restore();
                 fewer_failures = inject::FAILS.load(std::sync::atomic::Ordering::SeqCst) < n.min(100);
+            }
+            if reset_at_connect {
+                first = false;
+                #[cfg(feature = "hooks")]
+                let never_accepted = errs.is_some() && !inject::was_accepted(my_port);
+                #[cfg(not(feature = "hooks"))]
+                let never_accepted = false;
+                tokio::time::sleep(Duration::from_millis(40)).await;
+                if never_accepted {
+                    results.push(X::L(vec![X::N(3)]));
+                } else {
+                    #[cfg(feature = "hooks")]
+                    if errs.is_some() && fewer_failures {
+                        trouble = 3;
+                        break 'evs;
+                    }
+                    results.push(X::L(vec![X::N(0), X::L(Vec::new()), X::bool(true)]));
+                }
+                continue;
             }
             let stream = match stream {
                 Some(s) => s,
